@@ -134,8 +134,28 @@ def guard_fetch_connected(ctx, fn, bb):
 
 LOCAL_DB = "fails only on a local database/configuration fault, not on peer input"
 
+def guard_clock_minuend(ctx, fn, bb):
+    """`LocalTime - LocalDuration` underflows when the time is smaller than the duration.  Safe when the minuend is the local
+    clock (far from the epoch) and the subtrahend a configuration constant; not when the time comes from stored or received
+    data (an announcement's timestamp is chosen by a peer)."""
+    t = fn["blocks"][bb]["t"]
+    m = nshow(peel_calls(expr_operand(fn, t[2][0])))
+    if re.search(r"^\*?arg1\.clock$|::clock\(\*?arg1\)$|^\*?arg\d+$|\.clock\b", m):
+        # an argument must be a `&LocalTime`/`LocalTime` parameter named by the callers as the current time
+        mm = re.match(r"^\*?arg(\d+)$", m)
+        if mm:
+            ty = fn["locals"][int(mm.group(1))][0]
+            if "localtime::LocalTime" not in ty:
+                return False, "the time a duration is subtracted from is parameter %s of type %s" % (m, ty)
+        return True, ""
+    return False, ("`%s - <duration>`: the time does not come from the local clock; if it derives from stored or received data (e.g. the timestamp of an "
+                   "announcement) it can be smaller than the duration and the subtraction underflows" % m)
+
+
 TABLE = [
     # fn regex, source regex, class, reason, guard
+    (r".", r"^timesub:", "GUARDED", "a duration is subtracted only from the local clock (milliseconds since the epoch, far larger than any configured "
+     "interval), never from a time taken from stored or received data", guard_clock_minuend),
     (r".", r"^dbread:", "GUARDED", "the column's parser accepts everything this node's writer can have stored (hw/dbread.py: primitive / total parser / "
      "keyword set agreeing with the writer / reviewed inverse encodings)", dbread.guard),
     (r"bounded::BoundedVec::drain$", r"vecop:Vec::drain", "SAFE", "only caller is Deserializer::deserialize_next with the cursor position of the same buffer (pos <= len)", None),
